@@ -4,6 +4,8 @@ import json
 import math
 import os
 import struct
+import subprocess
+import sys
 import time
 
 from checks import common
@@ -14,7 +16,11 @@ USES_GEN = False
 META = {
     "technique": "Lean 4 proof over the reals (sum-of-squares positivity of J = U U^T, explicit 4x4 reverse Cholesky inverts it, "
                  "trace identity in orthonormal frames) + floating-point differential correspondence of the same generic model "
-                 "(on Float) with the tree's numpy code + numpy property oracle on the real code's outputs",
+                 "(on Float) with the tree's numpy code + numpy property oracle on the real code's outputs; for the apply->compile clause: "
+                 "Lean model of the compiler's inertial-source resolution (tied bitwise to the tree's mjCBody::Compile by an exhaustive decision "
+                 "table) and of the spec-write protocol of _infer_inertial / apply_body_theta_inertia (program extracted from the Python source "
+                 "on every run), theorem 'apply then compile = mass properties of pi_from_theta' for every inertiafromgeom / previous inertial / "
+                 "geoms / balanceinertia, and a scene oracle over the spec-option x body x API-sequence space",
     "text": "Hand-written Lean model, generic over the number type, of python/mujoco/sysid/_src/model_modifier.py: pi_from_theta "
             "(exp of the log-diagonal, upper-triangular U scaled by exp(alpha), J = U U^T, m, h, I = tr(Sigma) 1 - Sigma; 13 outputs as the "
             "code returns them), pseudoinertia_from_pi, cholesky_decompose_upper as the explicit 4x4 reverse Cholesky recurrence with "
@@ -30,13 +36,36 @@ META = {
             "in [-8,8]^10) within 1e-10 relative to the natural scale of each output; the inverse map is compared within a tolerance proportional "
             "to the condition number of the factor (both sides are backward-stable Cholesky variants with different operation order). "
             "Oracle on the real code alone: eigenvalues of J and I (numpy), triangle inequalities, round trip, and apply_body_theta_inertia -> MjSpec.compile "
-            "-> pi_from_body / theta_inertia_from_body recover the same mass properties.",
+            "-> pi_from_body / theta_inertia_from_body recover the same mass properties. "
+            "APPLY -> COMPILE CLAUSE. Model (LogCholesky.lean, second half): compileBody = the mass-property part of mjCBody::Compile (fullinertia consistency "
+            "errors, mjuu_fullInertia and InertiaFromGeom as abstract functions, the rule `inertiafromgeom == TRUE || (ipos undefined && AUTO)`, geoms weighed only "
+            "when `!explicitinertial || TRUE`, body-frame fallback, boundmass/boundinertia, negative and A+B>=C checks with balanceinertia), and the statements of "
+            "_infer_inertial / apply_body_theta_inertia that touch the MjSpec as programs inferProg / applyProg with an interpreter (applyTheta). Proved for every "
+            "theta, every caller's inertiafromgeom (false/true/auto), every previous inertial of the body (none/diagonal/full), every geom inertial (or none) and "
+            "balanceinertia on/off: the call leaves inertiafromgeom = AUTO and exactly the fields specOfTheta(theta) (applyTheta_eq), and compiling that yields mass m, "
+            "ipos h/m and the principal frame/moments of the central inertia with no error and no balanceinertia rewrite (apply_compile_same; hypotheses: quaternion "
+            "inertial orientation, the eigen-decomposition returns moments of an orthonormal frame, bounds below the values); pi_from_body then returns pi_from_theta "
+            "(pi_from_body_apply); under inertiafromgeom = TRUE the geoms would win (compile_under_true_uses_geoms: why the AUTO write must survive); with an "
+            "orientation alternative the result does not compile (compile_specOfTheta_orientation_alt). Ties: (1) translate/c47_protocol.py extracts the spec-touching "
+            "statements of the two functions from model_modifier.py with `ast` and they must equal the model's programs token by token (unrecognised statement -> "
+            "`unknown<..>`, never a guess); (2) compileBody vs the TREE's compiler (harness/c/c47_resolve.c linking the tree build): exhaustive 1152-row decision table "
+            "(inertiafromgeom x explicitinertial x ipos defined x fullinertia defined x diagonal kinds x orientation alternative x geom x balanceinertia x bounds) plus "
+            "seeded random numbers, compared bitwise, the abstract functions observed on the same harness; (3) the interpreted applyProg vs the spec state left by the real "
+            "apply_body_theta_inertia on generated scenes (`aspec`). Scene oracle (`cspec`, real code alone): compiler options inertiafromgeom, balanceinertia, boundmass, "
+            "boundinertia, inertiagrouprange, alignfree, fusestatic, discardvisual x target body with 0-3 geoms (density / mass / massless / out-of-group / visual), "
+            "inertial none / diagonal / diagonal+quat / full / euler / axisangle / xyaxes / zaxis, joint free/hinge/ball/slide/none, child (moving / welded), moving parent, "
+            "<frame> x API sequence (plain, twice, after a compile, other body first/after, via Parameter+apply_body_inertia, on spec.copy(), recompile): compiled mass, "
+            "ipos, pi_from_body, theta_inertia_from_body equal those of theta (against the documented clamp when a bound is active; frame-invariantly against the "
+            "unaligned twin when alignfree moves the body frame), and every other body keeps its compiled mass properties.",
     "note": "theorems are over the reals; rounding is outside the proofs (for |theta| large the float round trip degrades like eps*cond(J) and numpy's "
             "Cholesky may raise LinAlgError: such cases are classified ill-conditioned by a stated threshold, counted, and not judged). "
             "np.linalg.cholesky/BLAS are modelled by the textbook recurrence, not by LAPACK's operation order: agreement is numerical (tolerance stated in the "
             "evidence, max deviation reported), not bitwise. The MjSpec container and the compiler used by the last clause (apply -> compile -> same mass "
             "properties) are those of the pre-built mujoco 3.13 wheel in /venv, NOT the tree's C++ compiler: acceptable for that clause because the code under "
-            "test is the tree's Python module; the compiler's own eigen-decomposition is only sampled (C35 covers compiled mass properties). "
+            "test is the tree's Python module; the compiler's own eigen-decomposition is only sampled (C35 covers compiled mass properties); the tree's own compiler "
+            "enters through the decision-table tie of compileBody. Not modelled: settotalmass (its documented purpose is to overwrite masses; not generated), the "
+            "model-level 'moving body needs mass' check, mesh geoms. 'Undefined' (NaN in slot 0) is modelled by Option. The aspec tie skips scenes on which a recorded "
+            "finding makes the API sequence raise before the state can be read (fusestatic; orientation alternative followed by a second compile). "
             "pi_from_theta returns 13 numbers (the docstring says 10); modelled as coded.",
 }
 
@@ -48,6 +77,9 @@ THEOREMS = [P + n for n in [
     "triangle_inequalities", "triangle_inequalities_all", "triangle_inequalities_body_frame",
     "central_triangle_inequalities", "central_moment_pos",
     "chol_unique", "theta_roundtrip", "theta_roundtrip_direct",
+    "applyTheta_eq", "applyTheta_state", "FrameMoments.physical", "frameMoments_body_frame", "compile_specOfTheta",
+    "apply_compile_same", "compile_under_true_uses_geoms", "compile_specOfTheta_orientation_alt", "pi_from_body_apply",
+    "other_body_unchanged_of_auto",
 ]]
 
 IMPL = os.path.join(common.VERIF, "harness", "py", "c47_logchol.py")
@@ -257,7 +289,7 @@ def make_cmp(dev, fails):
     def cmp_inner(a, b):
         if a == b:
             w = a.split()
-            if w and w[0] in ("pi", "J", "ok", "body"):
+            if w and w[0] in ("pi", "J", "ok", "body", "spec"):
                 dev.note("bitwise-equal-lines", 0.0)
             return True
         wa, wb = a.split(), b.split()
@@ -310,6 +342,12 @@ def make_cmp(dev, fails):
                     dev.note("chol-U", d / tol)
                     o &= d <= tol
             return o
+        if op == "spec":
+            # spec <ifg> <explicit> body <10> inertia <3> iquat <nan|4>: flags / zeros / NaN marker exactly, numbers like `body`
+            if len(wa) != len(wb) or wa[1:4] != wb[1:4] or wa[14:] != wb[14:] or wa[3] != "body":
+                return False
+            wa, wb = wa[3:14], wb[3:14]
+            op = "body"
         if op == "body":
             bm, bi = [unhx(t) for t in wa[1:11]], [unhx(t) for t in wb[1:11]]
             m = abs(bm[0])
@@ -418,6 +456,401 @@ def oracle_compile(theta, o):
 
 
 # ======================================================================================================
+# scenes for "applying them to a body yields a spec that compiles with the same mass properties"
+# ======================================================================================================
+CFG_DEFAULT = {"ifg": "2", "inr": "none", "ng": "1", "gm": "dens", "gg": "0", "igr": "def", "jt": "free", "ch": "1",
+               "chin": "0", "par": "0", "fr": "0", "bal": "0", "bm": "0", "bi": "0", "af": "0", "fs": "0", "dv": "0",
+               "vis": "0", "seq": "plain"}
+ALT_KINDS = ("euler", "axisangle", "xyaxes", "zaxis")
+SEQS = ("plain", "twice", "precompile", "otherfirst", "thenother", "param", "copy", "recompile")
+KEY_ALT = "c47:apply-compile-error:inertial-orientation-alternative"
+KEY_FUSED = "c47:apply-keyerror:fusestatic-fused-body"
+KEY_OTHER = "c47:other-body-changed:inertiafromgeom-reset"
+
+
+def cfg_token(c):
+    t = ",".join("%s=%s" % (k, c[k]) for k in CFG_DEFAULT if c[k] != CFG_DEFAULT[k])
+    return t or "-"
+
+
+def group_selected(c, group):
+    lo, hi = (0, 5) if c["igr"] == "def" else tuple(int(v) for v in c["igr"].split("-"))
+    return lo <= group <= hi
+
+
+def has_sel_geom(c):
+    """is there a geom with mass on the target that the compiler's InertiaFromGeom would select?"""
+    return (int(c["ng"]) > 0 and c["gm"] != "zero" and group_selected(c, int(c["gg"]))) or \
+           (c["vis"] == "1" and group_selected(c, 2))
+
+
+def fix_scene(c):
+    """make the caller's spec valid (every moving body has mass under the caller's inertiafromgeom AND under AUTO)"""
+    if c["par"] == "1" and c["jt"] == "free":
+        c["jt"] = "hinge"
+    if c["seq"] in ("otherfirst", "thenother") and c["ch"] == "0":
+        c["ch"] = "1"
+    if c["fs"] == "1" and c["ch"] == "2":
+        c["ch"] = "1"       # a static child would be fused INTO the target: the compiled body is then b+c by design
+    if c["jt"] != "none":
+        if c["inr"] == "none" and (c["ifg"] == "0" or not has_sel_geom(c)):
+            c["inr"] = "diag"
+    if (c["ch"] == "1" or c["par"] == "1") and (c["ifg"] == "0" or not group_selected(c, 0)):
+        c["chin"] = "1"
+    return c
+
+
+def scene_flags(c):
+    return int(c["ifg"]), (0 if c["inr"] == "none" else 1), (1 if has_sel_geom(c) else 0)
+
+
+def gen_scene(rng):
+    c = dict(CFG_DEFAULT)
+    c["ifg"] = rng.choice("012")
+    c["jt"] = rng.choice(("free", "free", "free", "hinge", "ball", "slide", "none"))
+    c["par"] = "1" if c["jt"] != "free" and rng.random() < 0.35 else "0"
+    r = rng.random()
+    c["inr"] = "none" if r < 0.33 else "diag" if r < 0.5 else "diagq" if r < 0.7 else "full" if r < 0.93 else rng.choice(ALT_KINDS)
+    c["ng"] = rng.choice("01123")
+    r = rng.random()
+    c["gm"] = "dens" if r < 0.6 else "mass" if r < 0.85 else "zero"
+    c["gg"] = "0" if rng.random() < 0.8 else "3"
+    r = rng.random()
+    c["igr"] = "def" if r < 0.75 else "1-2" if r < 0.87 else "0-2"
+    r = rng.random()
+    c["ch"] = "0" if r < 0.3 else "1" if r < 0.8 else "2"
+    c["chin"] = "1" if rng.random() < 0.35 else "0"
+    c["fr"] = "1" if rng.random() < 0.2 else "0"
+    c["bal"] = "1" if rng.random() < 0.3 else "0"
+    r = rng.random()
+    c["bm"] = "0" if r < 0.7 else "0.001" if r < 0.85 else "50"
+    r = rng.random()
+    c["bi"] = "0" if r < 0.75 else "0.0001" if r < 0.87 else "1"
+    for k, pr in (("af", 0.12), ("fs", 0.07), ("dv", 0.12)):
+        c[k] = "1" if rng.random() < pr else "0"
+    c["vis"] = "1" if rng.random() < 0.25 else "0"
+    c["seq"] = "plain" if rng.random() < 0.4 else rng.choice(SEQS[1:])
+    return fix_scene(c)
+
+
+def directed_scenes():
+    """the grid the clause names: inertiafromgeom false/true/auto x with/without geoms x inertial flavours x balanceinertia,
+    plus one scene per remaining option / sequence"""
+    out = []
+    for ifg in "012":
+        for inr in ("none", "diag", "full"):
+            for ng in ("0", "2"):
+                for bal in ("0", "1"):
+                    out.append(fix_scene(dict(CFG_DEFAULT, ifg=ifg, inr=inr, ng=ng, bal=bal)))
+    for seq in SEQS[1:]:
+        for ifg in "12":
+            out.append(fix_scene(dict(CFG_DEFAULT, ifg=ifg, inr="diag", ng="2", seq=seq)))
+    for k, v in (("af", "1"), ("fs", "1"), ("dv", "1"), ("vis", "1"), ("fr", "1"), ("par", "1"), ("igr", "1-2"), ("gm", "zero"),
+                 ("gm", "mass"), ("bm", "50"), ("bi", "1"), ("jt", "none"), ("jt", "ball"), ("ch", "2"), ("ch", "0")):
+        for ifg in "012":
+            out.append(fix_scene(dict(CFG_DEFAULT, **{"ifg": ifg, "inr": "diagq", k: v})))
+    out.append(fix_scene(dict(CFG_DEFAULT, af="1", ch="0")))
+    out.append(fix_scene(dict(CFG_DEFAULT, ifg="1", af="1", ch="0", inr="full", ng="3")))
+    seen, uniq = set(), []
+    for c in out:
+        t = cfg_token(c)
+        if t not in seen:
+            seen.add(t)
+            uniq.append(c)
+    return uniq
+
+
+def scene_line(op, c, th):
+    return "%s %d %d %d %s %s" % ((op,) + scene_flags(c) + (cfg_token(c), " ".join(hx(v) for v in th)))
+
+
+def close_tables(a, b):
+    """two compiled-body rows [mass, ipos(3), inertia(3), iquat(4)]: same mass properties?"""
+    if abs(a[0] - b[0]) > 1e-9 * max(abs(a[0]), abs(b[0]), 1e-300):
+        return False
+    if max(abs(x - y) for x, y in zip(a[1:4], b[1:4])) > 1e-9:
+        return False
+    s = max(max(abs(v) for v in a[4:7]), max(abs(v) for v in b[4:7]), 1e-300)
+    return max(abs(x - y) for x, y in zip(a[4:7], b[4:7])) <= 1e-9 * s
+
+
+def oracle_scene(c, theta, o):
+    """judge one `cspec` output.  Returns (failures [(key, what)], class, deviations)"""
+    bad = []
+    if "invalid" in o:
+        return bad, "invalid-original(not judged)", None
+    cond = o.get("cond", float("inf"))
+    if "exc" in o:
+        msg, stage = o["exc"], o.get("stage")
+        if stage == "pristine":
+            bad.append(("c47:scene-harness", "the scene could not be built: " + msg))
+        elif "fullinertia and inertial orientation cannot both be specified" in msg and c["inr"] in ALT_KINDS and stage in ("apply", "compile"):
+            bad.append((KEY_ALT, "inertial given with orientation alternative %r: after apply_body_theta_inertia the spec does not "
+                                 "compile: %s" % (c["inr"], msg)))
+        elif (msg.startswith("KeyError") or "not found in spec" in msg) and c["fs"] == "1" and c["jt"] == "none" and stage == "apply":
+            bad.append((KEY_FUSED, "fusestatic + static target body: apply_body_theta_inertia raised %s" % msg))
+        else:
+            bad.append(("c47:apply-compile-exception", "stage %s raised %s (cond %.3g)" % (stage, msg, cond)))
+        return bad, "exception", None
+    pi = o["pi"]
+    m = pi[0]
+    devs = {}
+    post = o["post"]
+    if post["mass"] != m:
+        bad.append(("c47:apply-mass", "body.mass %r != pi[0] %r" % (post["mass"], m)))
+    bm, bi = float(c["bm"]), float(c["bi"])
+    bm_active = bm > m
+    bi_active = o.get("eigF") is None or min(o["eigF"]) < bi * (1 + 1e-6)
+    aligned = bool(o.get("aligned"))
+    cls = "judged"
+    if bm_active or bi_active:
+        cls = "bound-active(judged against the documented clamp)"
+    if aligned:
+        cls = "alignfree(judged frame-invariantly)"
+    m_exp = max(m, bm)
+    devs["mass"] = abs(o["mass"] - m_exp) / m_exp
+    if devs["mass"] > 1e-12:
+        bad.append(("c47:compiled-mass", "compiled mass %r vs expected %r (pi[0] %r, boundmass %r)" % (o["mass"], m_exp, m, bm)))
+    ref = o["twin"] if aligned else o       # body-frame quantities: the unaligned compile
+    cm = [pi[1] / m, pi[2] / m, pi[3] / m]
+    cn = max(math.sqrt(sum(v * v for v in cm)), 1e-300)
+    devs["ipos"] = max(abs(x - y) for x, y in zip(ref["ipos"], cm)) / cn
+    if devs["ipos"] > 1e-9:
+        bad.append(("c47:compiled-ipos", "compiled ipos %r vs h/m %r" % (ref["ipos"], cm)))
+    trI = abs(pi[4]) + abs(pi[8]) + abs(pi[12])
+    if not bm_active and not bi_active:
+        sc = [m] + [max(abs(v) for v in pi[1:4]) + 1e-300] * 3 + [trI] * 9
+        devs["pi_back"] = max(abs(x - y) / s for x, y, s in zip(ref["pi_back"], pi, sc))
+        if not devs["pi_back"] <= COMPILE_REL:
+            bad.append(("c47:compiled-inertia", "pi_from_body after apply+compile differs from pi_from_theta by %.3g (relative to scale)"
+                        % devs["pi_back"]))
+    elif o.get("eigF") is not None:
+        exp = sorted(max(v, bi) for v in o["eigF"])
+        got = sorted(ref["inertia"])
+        devs["clamped_moments"] = max(abs(x - y) for x, y in zip(exp, got)) / max(exp[2], 1e-300)
+        if not devs["clamped_moments"] <= COMPILE_REL:
+            bad.append(("c47:compiled-inertia", "principal moments %r vs max(eig(fullinertia), boundinertia) %r" % (got, exp)))
+    I = sorted(o["inertia"])
+    if not (I[0] > 0 and I[0] + I[1] >= I[2] * (1 - 1e-9)):
+        bad.append(("c47:compiled-principal-moments", "compiled inertia %r" % (o["inertia"],)))
+    if aligned:
+        tw = o["twin"]
+        d = [abs(o["mass"] - tw["mass"]) / m_exp,
+             max(abs(x - y) for x, y in zip(sorted(o["inertia"]), sorted(tw["inertia"]))) / max(max(tw["inertia"]), 1e-300),
+             max(abs(x - y) for x, y in zip(o["xipos"], tw["xipos"])) / (1.0 + max(abs(v) for v in tw["xipos"]))]
+        sI = max(abs(tw["Iw"][0]) + abs(tw["Iw"][4]) + abs(tw["Iw"][8]), 1e-300)
+        dI = max(abs(x - y) for x, y in zip(o["Iw"], tw["Iw"])) / sI
+        devs["aligned_vs_unaligned"] = max(max(d) / 1e-9, dI / COMPILE_REL) * 1e-9
+        if max(d) > 1e-9 or dI > COMPILE_REL:
+            bad.append(("c47:alignfree-changes-mass-properties", "world-frame mass properties differ between alignfree on/off: %r, inertia %.3g"
+                        % (d, dI)))
+    elif not bm_active and not bi_active:
+        tol = 1e-9 + COMPILE_REL * cond
+        if o.get("theta_back") is None:
+            if EPS * cond <= ERR_OK_COND:
+                bad.append(("c47:theta-back-linalgerror", "theta_inertia_from_body raised (cond %.3g)" % cond))
+        elif tol <= JUDGE_MAX:
+            err = max(abs(x - y) for x, y in zip(o["theta_back"], theta))
+            devs["theta_back/tol"] = err / tol
+            if not err <= tol:
+                bad.append(("c47:theta-back", "theta_inertia_from_body after apply differs by %.3g > %.3g" % (err, tol)))
+    # ---- every other body keeps its mass properties
+    touched = {"b"} | ({"c"} if c["seq"] in ("otherfirst", "thenother") else set())
+    for name, row in sorted(o["before"].items()):
+        if name in touched or name not in o["after"]:
+            continue
+        if not close_tables(row, o["after"][name]):
+            auto = (o.get("auto_ref") or {}).get(name)
+            if c["ifg"] != "2" and auto is not None and close_tables(auto, o["after"][name]):
+                bad.append((KEY_OTHER, "body %r: mass/ipos/inertia %r before, %r after applying theta to body 'b' (= what it compiles to under "
+                                       "inertiafromgeom=auto; the caller's option was %s)" % (name, row[:7], o["after"][name][:7], c["ifg"])))
+            else:
+                bad.append(("c47:other-body-changed", "body %r: %r before, %r after" % (name, row[:7], o["after"][name][:7])))
+    if "c" in touched and "c" in o["after"]:
+        po = o["pi_other"]
+        row = o["after"]["c"]
+        co = [po[1] / po[0], po[2] / po[0], po[3] / po[0]]
+        if abs(row[0] - max(po[0], bm)) > 1e-12 * max(po[0], bm) or (
+                c["af"] != "1" and max(abs(x - y) for x, y in zip(row[1:4], co)) > 1e-9 * max(1.0, max(abs(v) for v in co))):
+            bad.append(("c47:second-body-wrong", "body 'c' after its own apply: %r, expected mass %r ipos %r" % (row[:4], po[0], co)))
+    return bad, cls, devs
+
+
+def bump(d, k, n=1):
+    d[k] = d.get(k, 0) + n
+
+
+def protocol_tie(ctx, drv):
+    tr = os.path.join(common.VERIF, "translate", "c47_protocol.py")
+    r = subprocess.run([sys.executable, tr, common.REPO], capture_output=True, text=True)
+    src = {}
+    for l in r.stdout.split("\n"):
+        w = l.split()
+        if w:
+            src[w[0]] = w[1:]
+    rc, outs, err = ctx.run_lines([drv], ["prog infer", "prog apply"])
+    mod = {"infer": outs[0].split() if len(outs) > 0 else None, "apply": outs[1].split() if len(outs) > 1 else None}
+    ok = r.returncode == 0 and rc == 0 and all(src.get(k) == mod[k] and mod[k] for k in ("infer", "apply"))
+    ctx.oblige("spec-write protocol: statements of _infer_inertial / apply_body_theta_inertia extracted from model_modifier.py "
+               "= inferProg / applyProg of the Lean model", "translator", ok,
+               json.dumps({"source": src, "model": mod, "stderr": r.stderr[-500:]}))
+    ctx.extra["protocol"] = {"source": src, "model": mod}
+    ctx.count("prog infer")
+    ctx.count("prog apply")
+
+
+RESOLVE_FULL = [0.3, 0.2, 0.25, 0.01, 0.02, -0.01]
+
+
+def resolve_tie(ctx, drv, rng, thorough):
+    """exhaustive decision table (+ seeded random numbers) of the mass-property part of mjCBody::Compile: Lean compileBody vs the
+    tree's compiler (C harness linking the tree build).  The abstract functions of the model (InertiaFromGeom of the fixed geom,
+    mjuu_fullInertia of this line's fullinertia, the resolved orientation alternative, the body frame) are observed first on the
+    same harness (`probe`) and handed to both sides in the line.  Every iquat handed in is a unit quaternion, on which
+    mjuu_normvec is the identity (it skips vectors within mjEPS of unit length): the model's `normq` is instantiated by `id`."""
+    h = ctx.harness("harness/c/c47_resolve.c", "c47_resolve")
+    if not h:
+        return
+    lines = []
+    rc, pro, err = ctx.run_lines([h], ["probe geo", "probe alt", "probe frame"])
+    if rc != 0 or len(pro) != 3 or not all(p.startswith("obs ") for p in pro):
+        ctx.oblige("c47_resolve probes", "impl-build", False, "rc=%s out=%r err=%s" % (rc, pro, err[-300:]))
+        return
+    geo, alt, frame = (p.split()[1:] for p in pro)
+    specs = []
+    import itertools
+    for fl in itertools.product((0, 1, 2), (0, 1), (0, 1), (0, 1), (0, 1), (0, 1), (0, 1)):
+        for diag in ([0.0, 0.0, 0.0], [0.3, 0.2, 0.25], [0.1, 0.1, 0.5]):
+            for bm, bi in ((0.0, 0.0), (4.0, 0.22)):
+                specs.append((fl, [3.0, 0.01, 0.02, 0.03, 0.5, -0.5, -0.5, 0.5] + diag + RESOLVE_FULL + [bm, bi]))
+    for _ in range(4000 if thorough else 600):
+        fl = (rng.randrange(3),) + tuple(rng.randrange(2) for _ in range(6))
+        mass = rng.choice((rng.uniform(0.1, 5), rng.uniform(0.1, 5), 0.0, -rng.uniform(0.1, 2)))
+        q = [rng.gauss(0, 1) for _ in range(4)]
+        nq = math.sqrt(sum(v * v for v in q))
+        q = [v / nq for v in q]
+        kind = rng.random()
+        if kind < 0.5:
+            a, b = rng.uniform(0.05, 1), rng.uniform(0.05, 1)
+            diag = [a, b, rng.uniform(abs(a - b), a + b)]
+        elif kind < 0.7:
+            diag = [rng.uniform(0.05, 1) for _ in range(3)]
+        elif kind < 0.8:
+            diag = [rng.uniform(-0.2, 1) for _ in range(3)]
+        else:
+            diag = [0.0, 0.0, 0.0]
+        # the inertia of a few point masses (always physical); sometimes shifted so that it loses positive definiteness
+        F = [[0.0] * 3 for _ in range(3)]
+        for _ in range(rng.choice((3, 4, 6))):
+            pm, r = rng.uniform(0.1, 2), [rng.uniform(-0.5, 0.5) for _ in range(3)]
+            r2 = sum(v * v for v in r)
+            for i in range(3):
+                for j in range(3):
+                    F[i][j] += pm * ((r2 if i == j else 0.0) - r[i] * r[j])
+        sh = rng.choice((0.0, 0.0, 0.0, 0.0, 0.05, -0.3))
+        full = [F[0][0] + sh, F[1][1] + sh, F[2][2] + sh, F[0][1], F[0][2], F[1][2]]
+        bm = rng.choice((0.0, 0.0, 0.0, rng.uniform(0, 6), -1.0))
+        bi = rng.choice((0.0, 0.0, 0.0, rng.uniform(0, 0.6), -1.0))
+        specs.append((fl, [mass] + [rng.uniform(-0.3, 0.3) for _ in range(3)] + q + diag + full + [bm, bi]))
+    # observe mjuu_fullInertia for every distinct fullinertia
+    fulls = {}
+    for _, x in specs:
+        fulls.setdefault(tuple(x[11:17]), None)
+    keys = list(fulls)
+    rc, outs, err = ctx.run_lines([h], ["probe eig " + " ".join(hx(v) for v in k) for k in keys])
+    if rc != 0 or len(outs) != len(keys):
+        ctx.oblige("c47_resolve probes", "impl-build", False, "eig probes rc=%s" % rc)
+        return
+    for k, o in zip(keys, outs):
+        w = o.split()
+        # `err eigFailed` = mjuu_fullInertia's own error (observed as NaN moments); any other probe error (the A + B >= C check
+        # fires on the probe body itself) leaves the eigen-decomposition unobserved: such lines are dropped
+        fulls[k] = w[1:] if w and w[0] == "obs" and len(w) == 8 else ["nan"] * 7 if o == "err eigFailed" else None
+    cls = {}
+    dropped = 0
+    for fl, x in specs:
+        if fulls[tuple(x[11:17])] is None:
+            dropped += 1
+            continue
+        lines.append("resolve " + " ".join(str(v) for v in fl) + " " + " ".join(hx(v) for v in x) + " " +
+                     " ".join(geo + fulls[tuple(x[11:17])] + alt + frame))
+    lines += ["resolve 3 0 0 0 0 0 0", "probe", "resolve"]
+    bad = ctx.differential("compileBody (Lean) vs mjCBody::Compile of the tree: inertial-source decision table", [drv], [h], lines,
+                           keyf=lambda l: l if len(l) > 40 else None,
+                           cmp=lambda a, b: a == b)
+    rc, outs, err = ctx.run_lines([h], lines[:-3])
+    for o in outs:
+        w = o.split()
+        bump(cls, w[0] + (":" + w[1] if w and w[0] == "err" else ""))
+    ctx.extra["resolve_table"] = {"lines": len(lines) - 3, "dropped(eigen-decomposition not observable)": dropped, "exhaustive": 1152, "outcomes(tree compiler)": cls, "comparison": "bitwise"}
+
+
+def scene_pass(ctx, drv, impl, rng, nscene, naspec, cmp, state, stream=0):
+    """apply -> compile over the option / body / sequence space: `cspec` oracle lines (and, with a driver, `aspec`
+    differential lines on scenes without fusestatic)."""
+    scenes = directed_scenes() if stream == 0 else []
+    while len(scenes) < nscene:
+        scenes.append(gen_scene(rng))
+    cases = []
+    for k, c in enumerate(scenes):
+        B = rng.choice((1.0, 2.0, 3.0))
+        th = DIRECTED_THETA[9] if (stream == 0 and k % 7 == 0) else [rng.uniform(-B, B) for _ in range(10)]
+        cases.append((c, th, scene_line("cspec", c, th)))
+    hist = {}
+    for c, _, _ in cases:
+        for k in ("ifg", "inr", "ng", "gm", "jt", "ch", "seq", "bal", "af", "fs", "dv", "igr"):
+            bump(hist, "%s=%s" % (k, c[k]))
+        bump(hist, "ifg=%s&geoms=%s&inertial=%s" % (c["ifg"], "yes" if has_sel_geom(c) else "no", "yes" if c["inr"] != "none" else "no"))
+    alines = []
+    if drv and naspec:
+        # the spec state is read after the whole API sequence: scenes on which a known finding makes the sequence raise before that
+        # (fused target body; a compile after the first apply on a body whose inertial uses an orientation alternative) are left
+        # to the oracle pass
+        pool = [(c, th) for c, th, _ in cases if c["fs"] == "0" and
+                not (c["inr"] in ALT_KINDS and c["seq"] in ("twice", "thenother", "recompile"))]
+        for c, th in pool[:naspec]:
+            alines.append(scene_line("aspec", c, th))
+        alines += ["aspec 2 0 1 - 00", "aspec 3 0 1 - " + " ".join(hx(0.0) for _ in range(10)), "aspec 2 0 1"]
+    with concurrent.futures.ThreadPoolExecutor(max_workers=1) as ex:
+        fut = ex.submit(ctx.run_lines, impl, [l for _, _, l in cases])
+        if alines:
+            ctx.differential("applyTheta (interpreted applyProg, Float) vs the spec state left by the real apply_body_theta_inertia "
+                             "[scenes]", [drv], impl, alines, keyf=lambda l: l if len(l) > 60 else None, cmp=cmp)
+        rc, outs, err = fut.result()
+    if rc != 0 or len(outs) != len(cases):
+        ctx.oracle_failure("c47:harness-crash", "scene pass crashed rc=%s" % rc, {"stderr": err[-500:]})
+        return
+    classes, sdev = {}, {}
+    for (c, th, l), o in zip(cases, outs):
+        ctx.count(l)
+        if not o.startswith("{"):
+            state["nfail"] += 1
+            ctx.oracle_failure("c47:exception", "scene harness raised: " + o[:200], {"line": l, "replay": replay_cmd(l)})
+            continue
+        oj = json.loads(o)
+        fl, cls, dv = oracle_scene(c, th, oj)
+        bump(classes, cls)
+        for k, v in (dv or {}).items():
+            sdev[k] = max(sdev.get(k, 0.0), v)
+        for key, what in fl:
+            state["nfail"] += 1
+            bump(classes, "failure:" + key)
+            replay = {"cfg": cfg_token(c), "theta": th, "line": l, "replay": replay_cmd(l),
+                      "impl_output": {k: oj.get(k) for k in ("exc", "stage", "pi", "post", "mass", "ipos", "inertia", "pi_back", "before", "after")}}
+            if "collect" in state:
+                state["collect"].append((key, what, replay))
+            elif state["nfail"] <= 40 or key in (KEY_ALT, KEY_FUSED, KEY_OTHER):
+                if not (key in (KEY_ALT, KEY_FUSED, KEY_OTHER) and classes["failure:" + key] > 2):
+                    ctx.oracle_failure(key, what, replay)
+    if stream == 0:
+        ctx.sample({"op": cases[0][2], "cspec": json.loads(outs[0]) if outs[0].startswith("{") else outs[0]})
+        ctx.extra["scene_distribution"] = hist
+        ctx.extra["scene_classes"] = classes
+        ctx.extra["scene_max_deviation"] = {k: float("%.3g" % v) for k, v in sdev.items()}
+        ctx.extra["scene_cases"] = len(cases)
+
+
+# ======================================================================================================
 def run(ctx):
     thorough = ctx.tier == "thorough"
     ctx.rule = ("op lines `fwd theta` (pi_from_theta -> pseudoinertia_from_pi -> theta_from_pseudoinertia), `pseudo pi`, `chol J`, `apply theta`; theta seeded "
@@ -437,7 +870,9 @@ def run(ctx):
     nfwd = 1000000 if thorough else 10000
     chunk = 100000
     napply = 2000 if thorough else 400
-    ncompile = 2000 if thorough else 400
+    ncompile = 2000 if thorough else 150
+    nscene = 6000 if thorough else 450
+    naspec = 2000 if thorough else 250
     dev = Dev()
     cmp_fail = []
     cmp = make_cmp(dev, cmp_fail)
@@ -449,6 +884,13 @@ def run(ctx):
                "rc=%s out=%r err=%s" % (rc, outs[:3], err[-800:]))
     if rc != 0 or outs != ["bad-op", "bad-op"]:
         return
+
+    # ---- structural tie: the spec-touching statements of _infer_inertial / apply_body_theta_inertia, extracted from the
+    # source, are the modelled programs inferProg / applyProg
+    protocol_tie(ctx, drv)
+    # ---- decision-table tie: compileBody vs the tree's own mjCBody::Compile
+    resolve_tie(ctx, drv, rng, thorough)
+    phase["protocol+resolve ties"] = round(time.time() - t0, 1)
 
     hist = {}
     orc = {"judged": 0, "ill-conditioned(not judged)": 0, "ill-conditioned(LinAlgError)": 0}
@@ -544,6 +986,21 @@ def run(ctx):
         ctx.sample({"op": cl[0], "compile": json.loads(outs[0]) if outs[0].startswith("{") else outs[0]})
 
     phase["compile"] = round(time.time() - t0, 1)
+    # ---- apply -> compile over the spec option / body / API-sequence space
+    state = {"nfail": nfail}
+    scene_pass(ctx, drv, impl, rng, nscene, naspec, cmp, state, stream=0)
+    nfail = state["nfail"]
+    phase["scenes"] = round(time.time() - t0, 1)
+
+    def directed(ctx2):
+        # a proof / tie obligation is broken and the oracle found nothing: look harder in the scene space
+        st = {"nfail": 0, "collect": []}
+        scene_pass(ctx2, None, impl, ctx2.rng, 4000, 0, None, st, stream=1)
+        for key, what, replay in st["collect"]:
+            if key not in (KEY_ALT, KEY_FUSED, KEY_OTHER):
+                return {"key": key, "what": what, "replay": replay}
+        return None
+    ctx.directed_search = directed
     ctx.extra["phase_cumulative_s"] = phase
     ctx.extra["input_distribution"] = hist
     ctx.extra["tolerances"] = {
